@@ -13,3 +13,13 @@ c10_eligible = lambda valid: mc_c10.eligible(valid) and valid.case().args[1] != 
 c10_units = lambda valid: [0]
 c10_build = mc_c10.build(FAMILY, 1)
 c10_attempts = mc_c10.attempts
+
+
+def c10_plan_request(valid, unit, v, r):
+    """model-driver request for the SPEC's plan script of this (base, vector, r) — see props/families/valve.py; theorems
+    C10_mclegacy_query_* (Props/C10_mclegacy_whole.lean)"""
+    import re
+    m = re.fullmatch(r"ml(\d+)_(\d+)", valid.id)
+    if not m:
+        return None
+    return f"mclegacyplan {m.group(1)} {m.group(2)} {r} {v}"
